@@ -214,7 +214,11 @@ impl WalManager {
     }
 
     pub(crate) fn append_op(&mut self, op_data: &[u8]) -> Result<WalAppendInfo, WalError> {
-        let version = self.allocate_next_op_version();
+        // The version is consumed only once its entry is in the log. A failed append that kept
+        // its version would leave a hole: the segment holding the hole is sealed by the next
+        // roll-over although it is not full, and a restart that finds nothing above the hole
+        // appends to that segment again - behind its end marker, where replay never looks.
+        let version = self.get_next_op_version();
         let target_segment_id = self.segment_id_for_op_version(version.get());
 
         // check if we need to roll over to a new segment file.
@@ -231,6 +235,7 @@ impl WalManager {
         let writer = self.active_writer.as_mut().unwrap();
         let op_hash = calculate_blob_hash(op_data);
         writer.write_entry(version, op_hash, op_data)?;
+        self.allocate_next_op_version();
 
         Ok(WalAppendInfo { version, op_hash })
     }
